@@ -7,10 +7,12 @@ package sched
 
 import (
 	"fmt"
+	"os"
 	"runtime"
 	"sort"
 	"strings"
 	"sync"
+	"sync/atomic"
 	"testing"
 	"testing/synctest"
 	"time"
@@ -112,8 +114,40 @@ type Scenario struct {
 
 const libFrame = "github.com/ipni/go-libipni/"
 
+// watchdog: real time, outside any bubble. If no execution completes for
+// stallLimit the process dumps all goroutines and exits with status 3, which
+// the driver reports as a machinery error (never as a violation).
+var (
+	progress   atomic.Int64
+	watchOnce  sync.Once
+	stallLimit = 120 * time.Second
+)
+
+func startWatchdog() {
+	watchOnce.Do(func() {
+		go func() {
+			last, since := progress.Load(), time.Now()
+			for {
+				time.Sleep(2 * time.Second)
+				if cur := progress.Load(); cur != last {
+					last, since = cur, time.Now()
+					continue
+				}
+				if time.Since(since) > stallLimit {
+					buf := make([]byte, 1<<22)
+					buf = buf[:runtime.Stack(buf, true)]
+					fmt.Fprintf(os.Stderr, "WATCHDOG: no execution finished for %v; goroutines:\n%s\n", stallLimit, buf)
+					os.Exit(3)
+				}
+			}
+		}()
+	})
+}
+
 // Run performs one execution following prefix, then default choices.
-func Run(t *testing.T, sc *Scenario, prefix []int, expect [][]string) *Exec {
+func Run(t *testing.T, sc *Scenario, prefix []int, expect []uint64) *Exec {
+	startWatchdog()
+	defer progress.Add(1)
 	e := &Exec{Scenario: sc.Name, Prefix: append([]int(nil), prefix...), Unfinished: map[string]string{}, finished: map[string]bool{}}
 	maxSteps := sc.MaxSteps
 	if maxSteps == 0 {
@@ -183,8 +217,8 @@ func Run(t *testing.T, sc *Scenario, prefix []int, expect [][]string) *Exec {
 			choice := 0
 			if step < len(prefix) {
 				choice = prefix[step]
-				if expect != nil && step < len(expect) && strings.Join(expect[step], "|") != strings.Join(rec.Enabled, "|") {
-					e.Diverged = fmt.Sprintf("step %d: enabled %v, recorded %v", step, rec.Enabled, expect[step])
+				if expect != nil && step < len(expect) && expect[step] != enabledHash(rec.Enabled) {
+					e.Diverged = fmt.Sprintf("step %d: enabled set %v differs from the recorded one", step, rec.Enabled)
 					break
 				}
 				if choice >= len(en) {
@@ -253,44 +287,67 @@ func firstLines(s string, n int) string {
 	return strings.Join(l, "\n")
 }
 
-// Explorer enumerates executions of a scenario.
+func enabledHash(en []string) uint64 { return vp.Hash64(strings.Join(en, "|")) }
+
+// Explorer enumerates executions of a scenario by iterative context bounding:
+// all schedules with 0 preemptions, then exactly 1, then exactly 2, ... Each
+// execution is run once; alternatives that would exceed the current bound are
+// kept in a frontier for the next bound instead of being re-discovered.
 type Explorer struct {
 	T     *testing.T
 	R     *vp.Recorder
 	Sc    *Scenario
 	Bound int
+	// Deadline, when set, stops the exploration (reported, never a violation).
+	Deadline time.Time
 	// statistics
 	Execs, Divergences, Capped int64
 	MaxPoints                 int
-	watch                     *time.Timer
+	// CompletedBound is the highest preemption bound fully explored by this
+	// shard for its share of the schedule tree (-1 = not even the 0-preemption schedules).
+	CompletedBound int
+	next           []item // frontier: items whose cost is current bound + 1
 }
 
 type item struct {
 	prefix []int
-	expect [][]string
+	expect []uint64
 	cost   int // preemptions used by the prefix
 }
 
-func (x *Explorer) children(e *Exec, from int, baseCost int) []item {
+func (x *Explorer) expired() bool {
+	if !x.Deadline.IsZero() && time.Now().After(x.Deadline) {
+		return true
+	}
+	return x.R.OverBudget()
+}
+
+// children lists the alternatives of the points at or after `from`. Those
+// within `limit` preemptions are returned; those needing exactly limit+1 go to
+// the frontier; costlier ones are impossible (an alternative adds at most one).
+func (x *Explorer) children(e *Exec, from int, baseCost int, limit int) []item {
 	var out []item
-	cost := baseCost
-	// cost of the choices already taken after `from` is zero (defaults)
+	choices := e.Choices()
+	var hashes []uint64
+	for i := range e.Points {
+		hashes = append(hashes, enabledHash(e.Points[i].Enabled))
+	}
 	for i := from; i < len(e.Points); i++ {
 		p := e.Points[i]
 		for alt := 1; alt < len(p.Enabled); alt++ {
-			c := cost
+			c := baseCost
 			if p.Continues {
 				c++
 			}
 			if c > x.Bound {
 				continue
 			}
-			pre := append(append([]int(nil), e.Choices()[:i]...), alt)
-			exp := make([][]string, i+1)
-			for k := 0; k <= i; k++ {
-				exp[k] = e.Points[k].Enabled
+			it := item{append(append([]int(nil), choices[:i]...), alt), hashes[:i+1:i+1], c}
+			if c <= limit {
+				out = append(out, it)
+			} else {
+				x.next = append(x.next, it)
 			}
-			out = append(out, item{pre, exp, c})
 		}
 	}
 	return out
@@ -382,28 +439,35 @@ func pointSummary(e *Exec) []string {
 	return out
 }
 
-func (x *Explorer) subtree(it item) {
-	if x.R.OverBudget() {
-		return
+// subtree explores everything reachable from it within `limit` preemptions.
+func (x *Explorer) subtree(it item, limit int) (complete bool) {
+	if x.expired() {
+		return false
 	}
 	e := x.runChecked(it, true)
 	if e.Diverged != "" {
-		return
+		return true // counted and reported as non-exhaustive by runChecked
 	}
-	for _, ch := range x.children(e, len(it.prefix), it.cost) {
-		x.subtree(ch)
+	complete = true
+	for _, ch := range x.children(e, len(it.prefix), it.cost, limit) {
+		if !x.subtree(ch, limit) {
+			complete = false
+		}
 	}
+	return complete
 }
 
-// Explore runs the scenario: determinism check, then depth-first exploration
-// of all schedules with at most Bound preemptions, sharded over processes.
-func (x *Explorer) Explore() {
+// Explore runs the scenario: determinism check, then iterative context
+// bounding up to Bound, sharded over processes. It returns the highest bound
+// this shard completed.
+func (x *Explorer) Explore() int {
 	r := x.R
 	sc := x.Sc
+	x.CompletedBound = -1
 	if r.Replaying() {
 		key := r.ReplayKey()
 		if !strings.HasPrefix(key, sc.Name+"|") {
-			return
+			return -1
 		}
 		var prefix []int
 		for _, f := range strings.Split(strings.TrimPrefix(key, sc.Name+"|"), ",") {
@@ -418,47 +482,111 @@ func (x *Explorer) Explore() {
 			e := Run(x.T, sc, prefix, nil)
 			if e.Diverged != "" {
 				r.Note("replay diverged: %s", e.Diverged)
-				return
+				return -1
 			}
 			x.judge(e)
 		}
-		return
+		return -1
 	}
 	shard, n := r.Shard()
 	root := Run(x.T, sc, nil, nil)
 	// determinism: the default execution twice
 	again := Run(x.T, sc, nil, nil)
-	if fmt.Sprint(root.Choices()) != fmt.Sprint(again.Choices()) || strings.Join(root.Obs(), "\n") != strings.Join(again.Obs(), "\n") || fmt.Sprint(pointSummary(root)) != fmt.Sprint(pointSummary(again)) {
+	if fmt.Sprint(root.Choices()) != fmt.Sprint(again.Choices()) || strings.Join(root.Obs(), "\n") != strings.Join(again.Obs(), "\n") || fmt.Sprint(fullPoints(root)) != fmt.Sprint(fullPoints(again)) {
 		r.Count("determinism_check_failed", 1)
 		r.NotExhaustive("the default schedule did not reproduce: " + sc.Name)
-		r.Note("determinism check failed for %s:\n run1 %v\n run2 %v", sc.Name, pointSummary(root), pointSummary(again))
+		r.Note("determinism check failed for %s: %s", sc.Name, firstDiff(root, again))
 	}
 	if shard == 0 {
 		x.judge(root)
 	}
-	items := x.children(root, 0, 0)
-	if len(items) < 4*n {
-		// expand one more level; every shard re-runs the small first level
-		var next []item
-		for k, it := range items {
-			e := x.runChecked(it, k%n == shard)
-			if e.Diverged != "" {
+	// bound 0: the alternatives of the default execution that cost nothing
+	// (taken where the running thread had blocked or finished); everything
+	// costing 1 lands in the frontier. Work is split over shards by index.
+	level := x.children(root, 0, 0, 0)
+	for b := 0; b <= x.Bound; b++ {
+		complete := true
+		for k, it := range level {
+			if k%n != shard {
 				continue
 			}
-			next = append(next, x.children(e, len(it.prefix), it.cost)...)
+			if !x.subtree(it, b) {
+				complete = false
+				break
+			}
 		}
-		items = next
-	} else {
-		// first-level items are subtrees themselves
-	}
-	for k, it := range items {
-		if k%n != shard {
-			continue
-		}
-		x.subtree(it)
-		if r.OverBudget() {
+		if !complete {
 			break
 		}
+		x.CompletedBound = b
+		r.Count(fmt.Sprintf("shards_completed_bound:%s:%d", sc.Name, b), 1)
+		if x.expired() {
+			break
+		}
+		// next bound starts from the frontier. Every shard discovered the
+		// frontier of its own share only, so it keeps exploring its own share:
+		// take all of it (index split already happened at the level above).
+		level, x.next = x.next, nil
+		if b == 0 {
+			// the frontier of the root itself was built by every shard identically:
+			// split it; deeper frontiers are per shard already
+			var mine, rootFrontier []item
+			rootFrontier = x.rootFrontier(root)
+			seen := map[string]bool{}
+			for k, it := range rootFrontier {
+				seen[fmt.Sprint(it.prefix)] = true
+				if k%n == shard {
+					mine = append(mine, it)
+				}
+			}
+			for _, it := range level {
+				if !seen[fmt.Sprint(it.prefix)] {
+					mine = append(mine, it)
+				}
+			}
+			level = mine
+		}
+		n = 1 // from here on `level` holds only this shard's items
+		shard = 0
 	}
 	r.Count("executions:"+sc.Name, x.Execs)
+	return x.CompletedBound
+}
+
+// rootFrontier lists the cost-1 alternatives of the default execution (the
+// same in every shard).
+func (x *Explorer) rootFrontier(root *Exec) []item {
+	saved := x.next
+	x.next = nil
+	x.children(root, 0, 0, 0)
+	out := x.next
+	x.next = saved
+	return out
+}
+
+func fullPoints(e *Exec) []string {
+	var out []string
+	for i, p := range e.Points {
+		out = append(out, fmt.Sprintf("%d: %s <- %v", i, p.Enabled[p.Chosen], p.Enabled))
+	}
+	return out
+}
+
+func firstDiff(a, b *Exec) string {
+	pa, pb := fullPoints(a), fullPoints(b)
+	for i := 0; i < len(pa) && i < len(pb); i++ {
+		if pa[i] != pb[i] {
+			return fmt.Sprintf("decision point %d differs: %q vs %q", i, pa[i], pb[i])
+		}
+	}
+	if len(pa) != len(pb) {
+		return fmt.Sprintf("%d vs %d decision points", len(pa), len(pb))
+	}
+	oa, ob := a.Obs(), b.Obs()
+	for i := 0; i < len(oa) && i < len(ob); i++ {
+		if oa[i] != ob[i] {
+			return fmt.Sprintf("observation %d differs: %q vs %q", i, oa[i], ob[i])
+		}
+	}
+	return fmt.Sprintf("%d vs %d observations", len(oa), len(ob))
 }
